@@ -189,7 +189,8 @@ theorem error_output_placed (env : Env) (fuel : Nat) (states : Json) (name next 
     (hn : c.next = some next)
     (hp : applyResultPath data (errorOutput e (causeOf msg)) (match c.resultPath with | none => some ['$'] | some p => p) = .ok data')
     (hl : (render data').length ≤ env.maxData) :
-    handleErr env (fuel + 1) states name state data ctx retries e msg st = runFrom env fuel states next data' ctx 0 st := by
+    handleErr env (fuel + 1) states name state data ctx retries e msg st =
+      runFrom env fuel states next data' ctx 0 (st.exit name data') := by
   have : ¬ env.maxData < (render data').length := by omega
   cases hrp : c.resultPath with
   | none => simp only [hrp] at hp; simp [handleErr, h, hn, hrp, hp, this]
@@ -200,7 +201,8 @@ theorem error_output_placed (env : Env) (fuel : Nat) (states : Json) (name next 
 theorem retry_count_reset (env : Env) (fuel : Nat) (states : Json) (name next : Str) (state raw out ctx : Json)
     (retries : Nat) (st : St) (hE : isTrue (fld state "End") = false) (hN : fldStr state "Next" = some next)
     (hL : (render out).length ≤ env.maxData) :
-    leave env (fuel + 1) states name state raw out ctx retries st = runFrom env fuel states next out ctx 0 st := by
+    leave env (fuel + 1) states name state raw out ctx retries st =
+      runFrom env fuel states next out ctx 0 (st.exit name out) := by
   have : ¬ (render out).length > env.maxData := by omega
   simp [leave, hE, hN, this]
 
@@ -289,7 +291,8 @@ theorem refused_transition_caught_on_raw_input (env : Env) (fuel : Nat) (states 
     (hp : applyResultPath raw (errorOutput (S "States.DataLimitExceeded") (causeOf (S "m")))
       (match c.resultPath with | none => some ['$'] | some p => p) = .ok raw')
     (hl : (render raw').length ≤ env.maxData) :
-    leave env (fuel + 2) states name state raw out ctx retries st = runFrom env fuel states cnext raw' ctx 0 st := by
+    leave env (fuel + 2) states name state raw out ctx retries st =
+      runFrom env fuel states cnext raw' ctx 0 (st.exit name raw') := by
   rw [refused_transition_handled_on_raw_input env (fuel + 1) states name next state raw out ctx retries st hE hN hL]
   exact error_output_placed env fuel states name cnext state raw raw' ctx retries _ _ st c h hn hp hl
 
@@ -303,7 +306,8 @@ theorem refused_transition_caught_null_resultpath (env : Env) (fuel : Nat) (stat
       (S "States.DataLimitExceeded") retries = .caught c)
     (hn : c.next = some cnext) (hrp : c.resultPath = some none)
     (hraw : raw ≠ .null) (hl : (render raw).length ≤ env.maxData) :
-    leave env (fuel + 2) states name state raw out ctx retries st = runFrom env fuel states cnext raw ctx 0 st := by
+    leave env (fuel + 2) states name state raw out ctx retries st =
+      runFrom env fuel states cnext raw ctx 0 (st.exit name raw) := by
   refine refused_transition_caught_on_raw_input env fuel states name next cnext state raw out raw ctx retries st c
     hE hN hL h hn ?_ hl
   simp [hrp, applyResultPath, hraw]
@@ -408,7 +412,7 @@ example (fuel : Nat) (states ctx : Json) (st : St) :
 /-- … and refused again at retry count 1: caught, `C` is entered with exactly `rawIn` -/
 example (fuel : Nat) (states ctx : Json) (st : St) :
     leave envS (fuel + 2) states (S "T") tState rawIn bigOut ctx 1 st =
-      runFrom envS fuel states (S "C") rawIn ctx 0 st :=
+      runFrom envS fuel states (S "C") rawIn ctx 0 (st.exit (S "T") rawIn) :=
   refused_transition_caught_null_resultpath envS fuel states (S "T") (S "N") (S "C") tState rawIn bigOut ctx 1 st
     theCatcher hEnd hNext hBig hCaught1 rfl rfl (by decide) (by decide)
 /-- the whole state, from `runState` (hypotheses of `task_refused_transition_retried_on_raw_input`) -/
